@@ -1074,6 +1074,7 @@ inline void runLevel(Ctx& C) {
   }
   std::set<std::string> emitted;
   uint64_t transitions = 0, forks = 0, skippedKnown = 0;
+  const bool noAlias = C.flag("no-alias");
   std::map<int, int> knownRuns;
   for (auto& st : F.states) {
     if (C.expired()) break;
@@ -1100,6 +1101,7 @@ inline void runLevel(Ctx& C) {
     std::vector<Op> ops;
     enabledOps(W, AB, ops);
     for (auto& op : ops) {
+      if (noAlias && risky(op)) continue;  // aliasing copies belong to C04 (known finding D11/D12)
       if (!C.take()) continue;
       std::string key = caseKey(cfg, h, op);
       if (risky(op)) {
